@@ -5015,6 +5015,11 @@ EmitDone:
 #undef ERROR_HANDLER
 
 Failed:
+  // A relocation entry created by this call must not survive the call if it failed.
+  if (re) {
+    (void)_code->_relocations.pop();
+  }
+
 #ifndef ASMJIT_NO_LOGGING
   return EmitterUtils::log_instruction_failed(this, err, inst_id, options, o0, o1, o2, op_ext);
 #else
